@@ -53,7 +53,14 @@ pub(super) fn get_highest_index(file_spec: &FileSpec) -> Option<u32> {
     for file in
         super::list_and_cleanup::list_of_log_and_compressed_files(file_spec, &InfixFilter::Numbrs)
     {
-        let name = file.file_stem().unwrap(/*ok*/).to_string_lossy();
+        // without suffix, a dot belongs to the name, it does not separate an extension
+        let name = if file_spec.get_suffix().is_some() {
+            file.file_stem()
+        } else {
+            file.file_name()
+        }
+        .unwrap(/*ok*/)
+        .to_string_lossy();
         let infix = if file_spec.has_basename()
             || file_spec.has_discriminant()
             || file_spec.uses_timestamp()
